@@ -221,12 +221,34 @@ def _heavy(e):
     return n + sum(_heavy(x) for x in e[1:] if isinstance(x, list))
 
 
+def _nonlinear_inner(e, root=True):
+    """a product / quotient / remainder of two non-literal operands occurs anywhere but at the root of the tree (casts
+    above it allowed).  Below another operator its value gets constrained -- by a branch condition, a shift count
+    range, a divisor != 0, an overflow premise -- and the resulting equations over 64-bit products are not reliably
+    decided within the time bound (seen: ((b | 31) * a) == 1ul, (b > c) << (a * b)).  Products of two variables are
+    covered at the root, by the depth-1 matrices and by the compound-assignment templates."""
+    if not isinstance(e, list) or not e or not isinstance(e[0], str):
+        return False
+    k = e[0]
+    if k == "cast":
+        return _nonlinear_inner(e[2], root)
+    if k == "bin":
+        if e[1] in ("mul", "div", "mod") and not root and e[2][0] != "lit" and e[3][0] != "lit":
+            return True
+        return _nonlinear_inner(e[2], False) or _nonlinear_inner(e[3], False)
+    if k == "un":
+        return _nonlinear_inner(e[2], False)
+    if k == "cond":
+        return any(_nonlinear_inner(x, False) for x in e[1:4])
+    return False
+
+
 def deep_family(rnd, n):
     out = []
     while len(out) < n:
         ts = [rnd.choice(TYPES) for _ in range(3)]
         e = _tree(rnd, rnd.choice([2, 2, 3]))
-        if _heavy(e) > 1:
+        if _heavy(e) > 1 or _nonlinear_inner(e):
             continue
         out.append(entry("expr/deep", fexpr(rnd.choice(["llong", "llong", "int", "uint", "ulong", "short", "uchar"]), ts, e), ts))
     return out
@@ -761,6 +783,7 @@ def family(tier, seed, march="x86_64", primary=True):
     primary="wide" -> full binary / conversion / compound-assignment matrices with sampled ?: triples,
     primary=False -> the covering subset"""
     rnd = random.Random(1000003 * seed + 101 + sum(map(ord, march)))
+    srnd = random.Random(1000003 * seed + 907 + sum(map(ord, march)))     # statement templates: own stream
     out = []
     if tier == "quick":
         out += bin_family(QUICK_PAIRS, BINOPS)
@@ -769,7 +792,7 @@ def family(tier, seed, march="x86_64", primary=True):
         out += implicit_family(QUICK_CAST[::2])
         out += cond_family(QUICK_COND)
         out += deep_family(rnd, 60)
-        out += stmt_family("quick", rnd, march)
+        out += stmt_family("quick", srnd, march)
     else:
         if primary == "wide":
             out += bin_family(list(itertools.product(TYPES, TYPES)))
@@ -778,7 +801,7 @@ def family(tier, seed, march="x86_64", primary=True):
             out += implicit_family(QUICK_CAST)
             out += cond_family(QUICK_COND + rnd.sample(list(itertools.product(TYPES, TYPES, TYPES)), 200))
             out += deep_family(rnd, 100)
-            out += stmt_family("thorough", rnd, march)
+            out += stmt_family("thorough", srnd, march)
         elif primary:
             out += bin_family(list(itertools.product(TYPES, TYPES)))
             out += un_family()
@@ -786,12 +809,12 @@ def family(tier, seed, march="x86_64", primary=True):
             out += implicit_family(list(itertools.product(TYPES, TYPES)))
             out += cond_family(list(itertools.product(TYPES, TYPES, TYPES)))
             out += deep_family(rnd, 300)
-            out += stmt_family("thorough", rnd, march)
+            out += stmt_family("thorough", srnd, march)
         else:
             out += bin_family(QUICK_PAIRS, BINOPS)
             out += un_family()
             out += cast_family(QUICK_CAST)
             out += cond_family(QUICK_COND)
             out += deep_family(rnd, 60)
-            out += stmt_family("quick", rnd, march)
+            out += stmt_family("quick", srnd, march)
     return out
